@@ -10,8 +10,35 @@ from .state import VERSIONS, make_gateway
 CMDS = (-1, 0, 1, 2, 3, 4)
 
 
+# the internal command is split into sub-type groups so that the work spreads over the cores
+INTERNAL_GROUPS = ((22, 32), (1, 3, 6, 14), (0, 2, 9, 11, 12))
+
+
+def split_internal(cfgs):
+    out = []
+    for c in cfgs:
+        if c.get("cmd") == 3:
+            allm = []
+            for i, g in enumerate(INTERNAL_GROUPS):
+                out.append(dict(c, subs=i))
+                allm.extend(g)
+            out.append(dict(c, subs="rest"))
+        else:
+            out.append(c)
+    return out
+
+
+def bucket_of(cfg):
+    s = cfg.get("subs")
+    if s is None:
+        return None
+    if s == "rest":
+        return {"in": False, "members": [m for g in INTERNAL_GROUPS for m in g]}
+    return {"in": True, "members": list(INTERNAL_GROUPS[s])}
+
+
 def _configs(tier=None):
-    return [{"version": v, "cmd": c} for v in VERSIONS for c in CMDS]
+    return split_internal([{"version": v, "cmd": c} for v in VERSIONS for c in CMDS])
 
 
 def _setup(h):
@@ -19,6 +46,7 @@ def _setup(h):
     summaries.install(h.it)
     h.it.loop_contracts.update(LOOPS)
     h.it.env["cfg_cmd"] = h.config.get("cmd")
+    h.it.env["cfg_subs"] = bucket_of(h.config)
 
     def note_new_id(it, args, rv):
         if len(args) == 1 or args[1] is None:  # add_sensor() without id: an allocation
